@@ -676,3 +676,81 @@ let () = register "c03" (fun line ->
           if owner e.Cluster.e_s.Cluster.sk = n_of_int n then Some (val_string (Resp.Arr (Some e.Cluster.e_s.Cluster.sb))) else None)
           (Cluster.lin st)))) in
     S.concat " ; " replies ^ " || " ^ logs ^ " || moved=0 ask=0")
+
+(* ---------------- C04: migration ---------------- *)
+let c04_slot (k : coq_N list) : coq_N = Slot.slot_of Tables.crc16tab Tables.slot_num k
+
+let c04_step (f : string list) : RedisSem.rval Migrate.cstate -> Migrate.mstep option = fun cs ->
+  match f with
+  | ["mb"; sl; t] -> Some (Migrate.MBegin (n_of_int (int_of_string sl), n_of_int (int_of_string t)))
+  | ["mk"; hx] -> Some (Migrate.MMoveKey (bytes_of_hex hx))
+  | ["mf"; sl] -> Some (Migrate.MFinish (n_of_int (int_of_string sl)))
+  | _ -> None
+
+let c04_render (v : RedisSem.rval) : string =
+  let hx = hex_of_bytes in
+  match v with
+  | RedisSem.VStr b -> "s:" ^ hx b
+  | RedisSem.VList l -> "l:" ^ S.concat "," (L.map hx l)
+  | RedisSem.VHash h -> "h:" ^ S.concat "," (L.sort compare (L.map (fun (f, x) -> hx f ^ "=" ^ hx x) h))
+  | RedisSem.VSet s -> "S:" ^ S.concat "," (L.sort compare (L.map hx s))
+
+let () = register "c04" (fun line ->
+  let (hd, tl) = match Str.bounded_split_delim (Str.regexp_string " # ") line 2 with
+    | [a; b] -> (a, b) | _ -> failwith "bad c04 line" in
+  let f = Array.of_list (L.filter (fun x -> x <> "") (S.split_on_char ' ' hd)) in
+  let layout = Array.make 16384 0 in
+  L.iter (fun r -> Scanf.sscanf r "%d-%d=%d" (fun lo hi n -> for s = lo to hi do layout.(s) <- n done)) (S.split_on_char ',' f.(1));
+  let cs = ref { Migrate.ndb = (fun _ _ -> None); own = (fun s -> n_of_int layout.(int_of_n s)); mig = (fun _ -> None) } in
+  let pending = ref [] in
+  let dead = ref [] in
+  let keys = ref [] in
+  let replies = ref [] and execs = ref [] in
+  let steps_of (s : string) = L.filter_map (fun x -> c04_step (L.filter (fun y -> y <> "") (S.split_on_char ' ' x)) !cs) (S.split_on_char ',' s) in
+  L.iter (fun it ->
+    let it = S.trim it in
+    if it = "" || it = "w" then ()
+    else
+      let fs = L.filter (fun x -> x <> "") (S.split_on_char ' ' it) in
+      match fs with
+      | "q" :: body ->
+        let (body, hook) =
+          let rec split acc = function
+            | "@ask" :: rest -> (L.rev acc, steps_of (S.concat " " rest))
+            | x :: rest -> split (x :: acc) rest
+            | [] -> (L.rev acc, []) in
+          split [] body in
+        let v = parse_val (Array.of_list body) (ref 0) in
+        (match Cluster.req_of_plan (plan_of v) with
+         | None -> replies := "NOT-KEYED" :: !replies; execs := "0" :: !execs
+         | Some (Cluster.RLocal r) -> replies := val_string r :: !replies; execs := "0" :: !execs
+         | Some (Cluster.RFwd (a, subs)) ->
+           let hook_left = ref hook in
+           let rs = L.map (fun s ->
+             keys := s.Cluster.sk :: !keys;
+             let pre = !pending in
+             pending := [];
+             let cs1 = Migrate.do_msteps c04_slot !cs pre in
+             let first = cs1.Migrate.own (c04_slot s.Cluster.sk) in
+             let q = { Migrate.q_pre = pre; q_sub = s; q_first = first; q_envs = [[]; !hook_left] } in
+             match Migrate.run_seq RedisSem.sem c04_slot (S (S (S O))) !cs [q] with
+             | (cs2, [Some ((r, _), h)]) ->
+               cs := cs2;
+               if h = S (S O) then hook_left := [];
+               r
+             | (cs2, _) -> cs := cs2; Resp.Err (bytes_of_ocaml "LOOP")) subs in
+           pending := !hook_left;
+           replies := val_string (Dispatch.assemble_reply a rs) :: !replies;
+           execs := string_of_int (L.length subs) :: !execs)
+      | ["fo"; i] -> if not (L.mem i !dead) then dead := i :: !dead
+      | ["mb"; _; t] when L.mem t !dead -> ()
+      | _ -> (match c04_step fs !cs with Some m -> pending := !pending @ [m] | None -> ()))
+    (Str.split (Str.regexp_string " ; ") tl);
+  let final = Migrate.do_msteps c04_slot !cs !pending in
+  let ks = L.sort_uniq compare (L.map hex_of_bytes !keys) in
+  let data = L.filter_map (fun hk ->
+    match Migrate.abs c04_slot final (bytes_of_hex hk) with
+    | Some v -> Some (hk ^ "=" ^ c04_render v)
+    | None -> None) ks in
+  S.concat " ; " (L.rev !replies) ^ " || " ^ S.concat " " (L.sort compare data) ^ " || " ^ S.concat "," (L.rev !execs)
+  ^ " || redirected-to-client=0 lost-or-duplicated-keys=0")
